@@ -289,7 +289,7 @@ def c14(tier):
         run_s2c(rep, "MC_SMT", smt_cfg(depth=16, keys="K16", ops=16, trunc="TFull16", emit="INVARIANT EmitSt"), R,
                 simulate=dict(num=2400, depth=16))
     need(rep, ["non-blank-default", "blank-value-written", "absent-key", "calls:calc_root"])
-    smt_traces(rep, tier, {"C14"})
+    smt_traces(rep, tier, {"C14"}, quick_sizes=(1, 2, 20, 30))
     return rep.finish()
 
 
@@ -315,7 +315,7 @@ def c15(tier):
         run_s2c(rep, "MC_SMT", smt_cfg(depth=16, keys="K16", ops=16, trunc="T16few", emit="INVARIANT EmitSt"), R,
                 simulate=dict(num=2400, depth=16))
     need(rep, ["proof-tracked", "truncated-list-refused", "calls:proof.update"])
-    smt_traces(rep, tier, {"C15"})
+    smt_traces(rep, tier, {"C15"}, quick_sizes=(1, 7, 8, 30))
     return rep.finish()
 
 
@@ -452,7 +452,7 @@ def c18(tier):
 CHECKS["C18"] = c18
 
 
-def smt_traces(rep, tier, owners):
+def smt_traces(rep, tier, owners, quick_sizes=(1, 2, 7, 8, 20, 30)):
     """code -> spec for C14 / C15: generated histories of the real tree and proof, key sizes 1..32"""
     import random
 
@@ -463,7 +463,7 @@ def smt_traces(rep, tier, owners):
     rng = random.Random(seed() * 131 + 7)
     # (the JSON reader of TLC's Json module refuses nesting deeper than 255: the decoded tree of a
     # 31- or 32-byte key does not fit; those sizes are covered by the depth-256 spec->code runs)
-    sizes = [1, 2, 7, 8, 20, 30] if tier == "quick" else [1, 2, 3, 5, 7, 8, 9, 13, 16, 20, 24, 28, 30]
+    sizes = list(quick_sizes) if tier == "quick" else [1, 2, 3, 5, 7, 8, 9, 13, 16, 20, 24, 28, 30]
     per = 12 if tier == "quick" else 150
     counts = {}
     from concurrent.futures import ThreadPoolExecutor
